@@ -63,7 +63,10 @@ Definition c02_ok (c : acase) : bool :=
   (* the outcome -> event mapping of the property text (Proofs/ReviewP2.v, module RB: no match -> Skipped, ambiguous ->
      Failed, panic / World failure -> Failed with the payload, stop after the first non-passed step, failure before the
      after-hook events), for the k-th attempt against the k-th entry of the script *)
-  && forallb (fun ig => ReviewP2.RB.events_match_outcomes (fst ig) (snd (snd ig))) (combine (ac_inputs c) (groups c)).
+  && forallb (fun ig => ReviewP2.RB.events_match_outcomes (fst ig) (snd (snd ig))) (combine (ac_inputs c) (groups c))
+  (* (`combine` truncates: a script with attempts must have produced at least one observed attempt, and never more than scripted) *)
+  && (match ac_inputs c, groups c with _ :: _, [] => false | _, _ => true end)
+  && Nat.leb (length (groups c)) (length (ac_inputs c)).
 
 (* C09: per attempt the callback log obeys the World / hook contract; no World instance is shared *)
 Definition c09_ok_case (c : acase) : bool :=
